@@ -194,13 +194,12 @@ def state_methods(run, ctx):
             if v is None:
                 continue
             n += 1
-            cap = [ev for ev in p.events if ev.kind == "cond" and (H.pat_match("(len(self.stack) < self.max_stack)", ev.a) or H.pat_match("(len(self.stack) <= self.max_stack)", ev.a))]
-            if not cap:
-                run.violation(fam, "push", "no-cap", H.where(fn), "State::push does not compare the branch-stack depth with max_stack")
-                continue
-            if cap[0].b:
+            pushes = [i for i, ev in enumerate(p.events) if ev.kind == "call" and ev.a.startswith("self.stack.push(")]
+            if pushes:
                 okp += 1
-                pushes = [i for i, ev in enumerate(p.events) if ev.kind == "call" and ev.a.startswith("self.stack.push(")]
+                pf = S.PathFacts(p.events, pushes[0])
+                if not pf.proves("Le", "len(self.stack)", "self.max_stack"):
+                    run.violation(fam, "push", "no-cap", H.where(fn), "State::push grows the branch stack without `stack.len() < max_stack` (or <=) being established")
                 zero = [i for i, ev in enumerate(p.events) if ev.kind == "assign" and ev.a == "self.nsave" and ev.b == "=" and ev.c == "0"]
                 if len(pushes) != 1:
                     run.violation(fam, "push", "no-push", H.where(fn), "State::push under the cap must push exactly one Branch")
@@ -215,10 +214,11 @@ def state_methods(run, ctx):
                     run.violation(fam, "push", "ok-value", H.where(fn), "State::push under the cap must return Ok(())")
             else:
                 errp += 1
+                pf = S.PathFacts(p.events)
                 if "StackOverflow" not in v or not v.startswith("Err("):
-                    run.violation(fam, "push", "overflow-err", H.where(fn), "State::push at the cap must return Err(StackOverflow), found %s" % v)
-                if any(ev.kind == "call" and ev.a.startswith("self.stack.push(") for ev in p.events):
-                    run.violation(fam, "push", "push-over-cap", H.where(fn), "State::push grows the stack beyond the cap")
+                    run.violation(fam, "push", "overflow-err", H.where(fn), "State::push without pushing must return Err(StackOverflow), found %s" % v)
+                if not pf.proves("Ge", "len(self.stack)", "self.max_stack"):
+                    run.violation(fam, "push", "spurious-overflow", H.where(fn), "State::push reports StackOverflow although the cap is not known to be reached")
         if okp < 1 or errp < 1:
             run.violation(fam, "push", "anchor-missing/paths", H.where(fn), "anchor-missing: State::push needs an under-cap and an at-cap path")
         run.ok(fam, "push", H.where(fn), n, "depth cap, Branch{pc,ix,nsave}, nsave reset")
@@ -722,17 +722,20 @@ def state_push_only(run, ctx):
         if v is None:
             continue
         n += 1
-        cap = [ev for ev in p.events if ev.kind == "cond" and (H.pat_match("(len(self.stack) < self.max_stack)", ev.a) or H.pat_match("(len(self.stack) <= self.max_stack)", ev.a))]
-        pushed = any(ev.kind == "call" and ev.a.startswith("self.stack.push(") for ev in p.events)
-        if not cap:
-            ok = False
-            run.violation(fam, "push-cap", "no-cap", H.where(fn), "State::push does not compare the branch-stack depth with max_stack")
-        elif cap[0].b and (not pushed or v != "Ok(())"):
-            ok = False
-            run.violation(fam, "push-cap", "under-cap", H.where(fn), "State::push under the cap must push and return Ok(())")
-        elif (not cap[0].b) and (pushed or "StackOverflow" not in v):
-            ok = False
-            run.violation(fam, "push-cap", "at-cap", H.where(fn), "State::push at the cap must not push and must return Err(StackOverflow), found %s" % v)
+        pushes = [i for i, ev in enumerate(p.events) if ev.kind == "call" and ev.a.startswith("self.stack.push(")]
+        if pushes:
+            pf = S.PathFacts(p.events, pushes[0])
+            if not pf.proves("Le", "len(self.stack)", "self.max_stack"):
+                ok = False
+                run.violation(fam, "push-cap", "no-cap", H.where(fn), "State::push grows the branch stack without `stack.len() < max_stack` (or <=) being established")
+            if v != "Ok(())":
+                ok = False
+                run.violation(fam, "push-cap", "under-cap", H.where(fn), "State::push under the cap must push and return Ok(())")
+        else:
+            pf = S.PathFacts(p.events)
+            if "StackOverflow" not in v or not pf.proves("Ge", "len(self.stack)", "self.max_stack"):
+                ok = False
+                run.violation(fam, "push-cap", "at-cap", H.where(fn), "State::push at the cap must not push and must return Err(StackOverflow), found %s" % v)
     if ok:
         run.ok(fam, "push-cap", H.where(fn), n, "branch stack depth is capped by max_stack; overflow is an Err, not growth")
 
@@ -746,7 +749,7 @@ def own_ix(run, ctx):
     POS = [p.get("name") for p in fn["params"]][2]
     approved = [
         ("+=", "codepoint_len_at(s,ix)", "advance by the code point at ix (guarded by ix < len, VMARM/stepping)"),
-        ("=", "ix_end", "end of a successful byte-wise literal / backreference comparison"),
+        ("=", "{endv}", "end of a successful byte-wise literal / backreference comparison"),
         ("=", "state.get({slot})", "Restore: a position saved earlier from ix"),
         ("=", "prev_codepoint_ix(s,ix)", "GoBack: previous code point boundary"),
         ("=", "{m}.offset()", "delegate end offset (regex-automata, anchored at ix)"),
@@ -767,9 +770,11 @@ def own_ix(run, ctx):
                         # must be bound from state.pop()
                         lets = [x for x in H.walk(fn["body"]) if x.get("k") == "Let" and H.canon(x.get("init")) == "state.pop()" and rhs in H.pat_canon(x["pat"])]
                         ok = bool(lets)
-                    if pat == "ix_end":
-                        lets = [x for x in H.walk(fn["body"]) if x.get("k") == "Let" and x["pat"].get("name") == "ix_end"]
+                    if pat == "{endv}":
+                        lets = [x for x in H.walk(fn["body"]) if x.get("k") == "Let" and x["pat"].get("name") == rhs]
                         ok = bool(lets) and all(H.pat_match("(ix + len({v}))", H.canon(x["init"])) for x in lets)
+                        if not ok:
+                            continue
                     break
             if not ok:
                 run.violation(fam, label, "form/%s%s" % (op, rhs), H.where(nd), "vm::run writes `ix %s %s`: not one of the approved ways of moving the text index (whole code points, previously held positions, engine offsets); a reported offset could fall inside a character or beyond the text" % (op, rhs))
